@@ -1,0 +1,143 @@
+//go:build verif
+
+package variablesvalidation
+
+// Contracts for the deductive verifier in /verif (comment-only file, build tag verif).
+// The accept/reject decision is v.err: nil = accepted so far. JSON values are read-only here.
+
+//@ decl stable variablesVisitor.definition by VariablesValidator.Validate
+//@ decl stable variablesVisitor.operation by VariablesValidator.Validate
+//@ decl stable variablesVisitor.opts by NewVariablesValidator
+// Validation only reads the two documents: no function of this package stores to these fields
+// (checked); the ast accessors it calls are contracted pure (assumed).
+//@ decl frozen ast.Document.Types
+//@ decl frozen ast.Document.InputObjectTypeDefinitions
+//@ decl frozenelems ast.Type
+
+//@ spec jIsNull(j *astjson.Value) bool = j != nil && jtype(global(jver), j) == astjson.TypeNull
+//@ spec typeRefsOK(d *ast.Document) bool = forall r in 0..len(d.Types) :: (tNonNull(d, r) || tList(d, r)) ==> 0 <= d.Types[r].OfType && d.Types[r].OfType < len(d.Types)
+
+//@ func variablesVisitor.invalidValueIfAllowed
+//@   requires v != nil
+//@   ensures {content.not.echoed.when.disabled} v.opts.DisableExposingVariablesContent ==> len(result) == 0
+//@   pure
+
+//@ func variablesVisitor.invalidEnumValueIfAllowed
+//@   requires v != nil
+//@   ensures {content.not.echoed.when.disabled} v.opts.DisableExposingVariablesContent ==> len(result) == 0
+//@   pure
+
+//@ func variablesVisitor.newInvalidVariableError
+//@   ensures result != nil
+//@   fresh
+//@   pure
+
+//@ func variablesVisitor.pushObjectPath
+//@   requires v != nil
+//@   ensures len(v.path) == old(len(v.path)) + 1
+//@   modifies v.path, elems(v.path)
+
+//@ func variablesVisitor.pushArrayPath
+//@   requires v != nil
+//@   ensures len(v.path) == old(len(v.path)) + 1
+//@   modifies v.path, elems(v.path)
+
+//@ func variablesVisitor.popPath
+//@   requires v != nil && len(v.path) >= 1
+//@   ensures len(v.path) == old(len(v.path)) - 1
+//@   modifies v.path
+
+//@ func variablesVisitor.renderPath
+//@   pure
+//@   trusted message formatting; reads v.path only
+
+// every render* function records a rejection
+//@ func variablesVisitor.renderVariableRequiredError
+//@   requires v != nil
+//@   ensures v.err != nil
+//@   modifies v.err, global(ext)
+//@ func variablesVisitor.renderVariableInvalidObjectTypeError
+//@   requires v != nil
+//@   ensures v.err != nil
+//@   modifies v.err, global(ext)
+//@ func variablesVisitor.renderVariableRequiredNotProvidedError
+//@   requires v != nil
+//@   ensures v.err != nil
+//@   modifies v.err, global(ext)
+//@ func variablesVisitor.renderVariableInvalidNestedTypeError
+//@   requires v != nil
+//@   assumes expectedType == ast.NodeKindScalarTypeDefinition || expectedType == ast.NodeKindInputObjectTypeDefinition || expectedType == ast.NodeKindEnumTypeDefinition
+//@   ensures v.err != nil
+//@   modifies v.err, global(ext)
+//@ func variablesVisitor.renderVariableFieldNotDefinedError
+//@   requires v != nil
+//@   ensures v.err != nil
+//@   modifies v.err, global(ext)
+//@ func variablesVisitor.renderVariableEnumValueDoesNotExistError
+//@   requires v != nil
+//@   ensures v.err != nil
+//@   modifies v.err, global(ext)
+//@ func variablesVisitor.renderVariableInvalidNullError
+//@   requires v != nil
+//@   ensures v.err != nil
+//@   modifies v.err, global(ext)
+
+// variable level (operation types)
+//@ func variablesVisitor.traverseOperationType
+//@   requires v != nil && v.operation != nil && v.definition != nil && 0 <= operationTypeRef && operationTypeRef < len(v.operation.Types)
+//@   assumes typeRefsOK(v.operation) && typeRefsOK(v.definition)
+//@   let nonnull = tNonNull(v.operation, operationTypeRef)
+//@   let islist = tList(v.operation, operationTypeRef)
+//@   let isnull = jIsNull(jsonValue)
+//@   let isarray = jsonValue != nil && jtype(global(jver), jsonValue) == astjson.TypeArray
+//@   ensures {errors.are.sticky} old(v.err) != nil ==> v.err != nil
+//@   ensures {required.variable.absent.rejected} nonnull && jsonValue == nil ==> v.err != nil
+//@   ensures {nullable.absent.or.null.accepted} !nonnull && (jsonValue == nil || isnull) ==> v.err == old(v.err)
+//@   ensures {list.needs.array} !nonnull && islist && jsonValue != nil && !isnull && !isarray ==> v.err != nil
+//@   ensures {path.restored} len(v.path) == old(len(v.path))
+//@   modifies *
+//@   loop 0:
+//@     invariant len(v.path) == old(len(v.path)) && (old(v.err) != nil ==> v.err != nil)
+
+// input object field level (definition types). The default value only rescues an ABSENT field.
+//@ func variablesVisitor.traverseFieldDefinitionType
+//@   requires v != nil && v.definition != nil && 0 <= typeRef && typeRef < len(v.definition.Types)
+//@   assumes typeRefsOK(v.definition)
+//@   let nonnull = tNonNull(v.definition, typeRef)
+//@   let islist = tList(v.definition, typeRef)
+//@   let hasDefault = ivHasDefault(v.definition, inputFieldRef)
+//@   ghost var g_upload bool = false
+//@   at call bytes.Equal: ghost g_upload = result
+//@   let isnull = jIsNull(jsonValue)
+//@   let isarray = jsonValue != nil && jtype(global(jver), jsonValue) == astjson.TypeArray
+//@   ensures {errors.are.sticky} old(v.err) != nil ==> v.err != nil
+//@   ensures {explicit.null.for.nonnull.rejected} nonnull && isnull && !g_upload ==> v.err != nil
+//@   ensures {absent.required.without.default.rejected} nonnull && jsonValue == nil && !hasDefault && !g_upload ==> v.err != nil
+//@   ensures {absent.with.default.accepted} nonnull && jsonValue == nil && hasDefault ==> v.err == old(v.err)
+//@   ensures {nullable.absent.or.null.accepted} !nonnull && (jsonValue == nil || isnull) ==> v.err == old(v.err)
+//@   ensures {list.needs.array} !nonnull && islist && jsonValue != nil && !isnull && !isarray ==> v.err != nil
+//@   ensures {path.restored} len(v.path) == old(len(v.path))
+//@   modifies *
+//@   loop 0:
+//@     invariant len(v.path) == old(len(v.path)) && (old(v.err) != nil ==> v.err != nil)
+
+
+//@ func variablesVisitor.violatesOneOfConstraint
+//@   requires v != nil && v.definition != nil
+//@   assumes 0 <= inputObjectDefRef && inputObjectDefRef < len(v.definition.InputObjectTypeDefinitions)
+//@   ensures {errors.are.sticky} old(v.err) != nil ==> v.err != nil
+//@   ensures {violation.is.reported} result ==> v.err != nil
+//@   ensures {path.restored} len(v.path) == old(len(v.path))
+//@   modifies *
+
+// named types: scalar kinds, enums, input objects
+//@ func variablesVisitor.traverseNamedTypeNode
+//@   requires v != nil && v.definition != nil
+//@   assumes typeRefsOK(v.definition)
+//@   ensures {errors.are.sticky} old(v.err) != nil ==> v.err != nil
+//@   ensures {path.restored} len(v.path) == old(len(v.path))
+//@   modifies *
+//@   loop 0:
+//@     invariant len(v.path) == old(len(v.path)) && (old(v.err) != nil ==> v.err != nil)
+//@   loop 1:
+//@     invariant len(v.path) == old(len(v.path)) && (old(v.err) != nil ==> v.err != nil)
